@@ -220,6 +220,7 @@ pub struct ConcResult {
     pub diverged: bool,
     /// canonical final state (None if the run was torn down)
     pub final_canon: Option<String>,
+    pub final_sections: Option<[String; 5]>,
     pub ret_canon: Vec<(u32, String)>,
     pub completed: bool,
     pub interrupted_ops: Vec<u32>,
@@ -230,6 +231,38 @@ fn sorted_models_canon(view: &View) -> String {
     v.sort();
     v.join("\n=====\n")
 }
+
+/// the final state by aspect, so that a mismatch can say WHAT differs: structure and values, file sets of the
+/// elements, list of files, path index, referrer lists (models in canonical order)
+pub fn sections_of(view: &View) -> [String; 5] {
+    let mut order: Vec<usize> = (0..view.models.len()).collect();
+    order.sort_by(|a, b| view.models[*a].1.canon.cmp(&view.models[*b].1.canon));
+    let mut out: [String; 5] = Default::default();
+    for mi in order {
+        let ms = &view.models[mi].1;
+        for n in &ms.nodes {
+            out[0].push_str(&format!("{}|{}|{}\n", n.depth, n.head, n.content_s));
+            out[1].push_str(&format!("{}\n", n.files_s));
+        }
+        for f in &ms.files {
+            out[2].push_str(&format!("{}|{}|{:?}\n", f.name, f.ver.filename(), f.standalone));
+        }
+        for (p, t) in &ms.index {
+            out[3].push_str(&format!("{p} -> {t:?}\n"));
+        }
+        for (k, v) in &ms.referrers {
+            if !v.is_empty() {
+                out[4].push_str(&format!("{k} <- {v:?}\n"));
+            }
+        }
+        for o in out.iter_mut() {
+            o.push_str("=====\n");
+        }
+    }
+    out
+}
+
+pub const SECTION_NAMES: [&str; 5] = ["tree", "file-sets", "files", "index", "referrers"];
 
 pub fn canon_rets(view: &View, outcomes: &[OpOutcome]) -> Vec<(u32, String)> {
     let mut pos: HashMap<Element, String> = HashMap::new();
@@ -315,11 +348,11 @@ pub fn finish_run(prep: &Prepared) -> ConcResult {
     let torn = findings.iter().any(|f| !matches!(f, Finding::ReentrantRead { .. }));
     let total_ops: usize = prep.scenario.clients.iter().map(|c| c.len()).sum();
     let completed = !torn && outcomes.len() == total_ops && outcomes.iter().all(|o| !o.ret.aborted);
-    let (final_canon, ret_canon) = if completed {
+    let (final_canon, final_sections, ret_canon) = if completed {
         let view = View::build(&prep.world);
-        (Some(sorted_models_canon(&view)), canon_rets(&view, &outcomes))
+        (Some(sorted_models_canon(&view)), Some(sections_of(&view)), canon_rets(&view, &outcomes))
     } else {
-        (None, Vec::new())
+        (None, None, Vec::new())
     };
     ConcResult {
         outcomes,
@@ -333,6 +366,7 @@ pub fn finish_run(prep: &Prepared) -> ConcResult {
         trace: st.trace,
         diverged: st.diverged,
         final_canon,
+        final_sections,
         ret_canon,
         completed,
         interrupted_ops: st.interrupted_ops.clone(),
@@ -340,7 +374,7 @@ pub fn finish_run(prep: &Prepared) -> ConcResult {
 }
 
 /// the same calls one after the other, in the given order, in a fresh model (single client, fault-free)
-pub fn run_sequential(sc: &Scenario, order: &[(usize, usize)], skip: &[u32]) -> Option<(String, Vec<(u32, String)>)> {
+pub fn run_sequential(sc: &Scenario, order: &[(usize, usize)], skip: &[u32]) -> Option<(String, Vec<(u32, String)>, [String; 5])> {
     let eng = engine();
     eng.begin_run(RunCfg::solo(1));
     eng.enter(0);
@@ -365,7 +399,7 @@ pub fn run_sequential(sc: &Scenario, order: &[(usize, usize)], skip: &[u32]) -> 
         return None;
     }
     let view = View::build(&prep.world);
-    Some((sorted_models_canon(&view), canon_rets(&view, &outcomes)))
+    Some((sorted_models_canon(&view), canon_rets(&view, &outcomes), sections_of(&view)))
 }
 
 /// all interleavings of the clients' sequences that keep each client's program order
